@@ -129,6 +129,10 @@ func (s *Service) signRootsByAccountType(ctx context.Context, accounts []e2wtype
 	distributedAccountSigMap := make(map[int]int)
 	signingDistributedAccounts := make([]e2wtypes.Account, 0, len(accounts))
 	for i := range accounts {
+		if accounts[i] == nil {
+			// No account to sign with; its signature stays zero.
+			continue
+		}
 		if _, isDistributedAccount := accounts[i].(e2wtypes.DistributedAccount); isDistributedAccount {
 			signingDistributedAccounts = append(signingDistributedAccounts, accounts[i])
 			distributedAccountSigMap[len(signingDistributedAccounts)-1] = i
